@@ -114,7 +114,8 @@ Inductive label :=
 | RecvJunk                 (* a frame too short to carry a header *)
 | Ping                     (* _SendPingMessage *)
 | Shutdown                 (* Close(), or the receive loop failing *)
-| Reopen.                  (* the closed sink is replaced by a new one on a new connection *)
+| Reopen                   (* the closed sink is replaced by a new one on a new connection *)
+| OpenAgain.               (* the first Open() call on the SAME sink object after it was shut down *)
 
 Inductive kind := KReq | KDiscard | KPing.
 
@@ -278,6 +279,16 @@ Definition do_reopen (cf : cfg) (s : state) : state * list event :=
   then ({| pl := pool_at (base cf); tmap := []; sendq := []; calls := calls s; closed := false; conn := conn s + 1 |}, [])
   else (s, []).
 
+(* Open() on a sink that was shut down: _open_result is None again, so _Init() builds a new TagPool, _tag_map and queue
+   and _OpenImpl runs; but _state stays Closed, the loops leave at once, nothing can be leased (AsyncProcessRequest
+   answers 'Sink not open.').  ThriftMux queues its Tping (never sent) and waits for the answer; Kafka's open fails. *)
+Definition do_openagain (cf : cfg) (s : state) : state * list event :=
+  if closed s
+  then ({| pl := pool_at (base cf); tmap := []; sendq := if kafka cf then [] else [QPing]; calls := calls s;
+           closed := true; conn := conn s |},
+        if kafka cf then [] else [EEnq KPing 1 0])
+  else (s, []).
+
 Definition step (cf : cfg) (s : state) (l : label) : state * list event :=
   match l with
   | Req c dl pick => do_req cf c dl pick s
@@ -289,6 +300,7 @@ Definition step (cf : cfg) (s : state) (l : label) : state * list event :=
   | Ping => do_ping cf s
   | Shutdown => do_shutdown s
   | Reopen => do_reopen cf s
+  | OpenAgain => do_openagain cf s
   end.
 
 (* final state / per-step events / whole trace of a label sequence *)
@@ -299,6 +311,11 @@ Fixpoint run (cf : cfg) (s : state) (ls : list label) : list (list event) :=
   match ls with [] => [] | l :: r => snd (step cf s l) :: run cf (fst (step cf s l)) r end.
 
 Definition trace (cf : cfg) (s : state) (ls : list label) : list event := concat (run cf s ls).
+
+(* one harness operation may stand for several labels (a segment with several frames, a callback that re-enters the
+   sink, requests that were waiting for Open()): the events of a group are compared as one list *)
+Fixpoint run_groups (cf : cfg) (s : state) (gs : list (list label)) : list (list event) :=
+  match gs with [] => [] | g :: r => trace cf s g :: run_groups cf (exec cf s g) r end.
 
 (* largest size of _tag_map seen along the run (after each step), starting from p *)
 Fixpoint peak (cf : cfg) (s : state) (ls : list label) (p : Z) : Z :=
@@ -387,7 +404,10 @@ Inductive case :=
 | CFill (mx n : Z) (last : Z) (refused : bool) (next_tag_after : option Z)
     (* n get() calls on a new TagPool(mx): last tag handed out, whether the last call was refused, and what one more
        get() returns (None = refused) *)
-| CMux (cf : cfg) (ops : list label) (expected : list (list event)).
+| CMux (cf : cfg) (ops : list (list label)) (expected : list (list event))
+| CMux2 (cf : cfg) (opsA : list (list label)) (expectedA : list (list event))
+        (opsB : list (list label)) (expectedB : list (list event)).
+    (* two sink instances living in the same process, driven alternately: each must behave as if it were alone *)
 
 Definition check_case (c : case) : bool :=
   match c with
@@ -396,7 +416,9 @@ Definition check_case (c : case) : bool :=
       let (r, p) := get_many mx n pool_init in
       (p_next p =? last) && Bool.eqb r refused &&
       option_eqb Z.eqb (match pool_get mx 0 p with GotTag t _ => Some t | _ => None end) after
-  | CMux cf ops e => list_eqb (list_eqb event_eqb) (run cf (start cf) ops) e
+  | CMux cf ops e => list_eqb (list_eqb event_eqb) (run_groups cf (start cf) ops) e
+  | CMux2 cf a ea b eb =>
+      list_eqb (list_eqb event_eqb) (run_groups cf (start cf) a) ea && list_eqb (list_eqb event_eqb) (run_groups cf (start cf) b) eb
   end.
 
 (* what the model computes, for the replay file *)
@@ -404,5 +426,6 @@ Definition explain_case (c : case) : list pool_obs * list (list event) :=
   match c with
   | CPool mx ops _ => (run_pool mx pool_init ops, [])
   | CFill mx n _ _ _ => let (r, p) := get_many mx n pool_init in ([OTag (p_next p); if r then OExhausted else OTag (p_next p)], [])
-  | CMux cf ops _ => ([], run cf (start cf) ops)
+  | CMux cf ops _ => ([], run_groups cf (start cf) ops)
+  | CMux2 cf a _ b _ => ([], run_groups cf (start cf) a ++ [[EBadPick]] ++ run_groups cf (start cf) b)
   end.
